@@ -242,7 +242,7 @@ theorem switch_local_config (guard : Bool) (X : String) (pre post : List Switch)
     | .usage, .usage => True
     | _, _ => False := by
   have c₁ : ∀ s, configure guard (pre ++ s :: post) = applySwitches guard (pre ++ s :: post) initOverrides := by
-    intro s; cases pre <;> simp [configure]
+    intro s; cases pre <;> simp [configure, show LibErrors.switchResetsAll = false by decide]
   rw [c₁, c₁, applySwitches_prefix, applySwitches_prefix]
   cases hp : applySwitches guard pre initOverrides with
   | crash => simp
@@ -295,7 +295,7 @@ theorem switch_added_config (guard : Bool) (hg : guard = true) (X : String) (o :
     | _, .usage => True
     | _, _ => False := by
   have c₁ : ∀ l, configure guard ((p :: pre) ++ l) = applySwitches guard ((p :: pre) ++ l) initOverrides := by
-    intro l; simp [configure]
+    intro l; simp [configure, show LibErrors.switchResetsAll = false by decide]
   rw [c₁, c₁, applySwitches_prefix, applySwitches_prefix]
   have nocrash : ∀ (l : List Switch) (ov : Overrides), applySwitches guard l ov ≠ .crash := by
     intro l
